@@ -170,7 +170,8 @@ class LibProxy:
 
 
 class OutFs:
-    def __init__(self, fail_write_at: Any = -1, kinds: Optional[Dict[str, str]] = None) -> None:
+    def __init__(self, fail_write_at: Any = -1, kinds: Optional[Dict[str, str]] = None, fail_with_value_error: Any = False) -> None:
+        self.fail_with_value_error = fail_with_value_error  # e.g. UnicodeEncodeError from write_text: NOT an OSError
         self.kinds: Dict[str, str] = dict(kinds or {})  # posix text -> 'dir' | 'file'
         self.ops: List[Tuple[str, str]] = []
         self.fail_write_at = fail_write_at  # symbolic index over mkdir/write_text operations
@@ -182,6 +183,8 @@ class OutFs:
         self.ops.append((op, text))
         if self.failed is None and idx == self.fail_write_at:
             self.failed = (op, text)
+            if self.fail_with_value_error:
+                raise UnicodeEncodeError("utf-8", "\ud800", 0, 1, "No space left on device (surrogates not allowed)")
             raise OSError(28, "No space left on device")
 
 
